@@ -232,6 +232,7 @@ func main() {
 	}
 	if *vkit.Mode == "race" {
 		racePass(res)
+		paillierRunsDry(res)
 		res.Finish()
 		return
 	}
